@@ -1215,6 +1215,19 @@ package eval
 //@   ensures [caller-memory-untouched] (forall ((r Int)) (! (=> (and (< r (old (next))) (not (= r (s_arr $params)))) (= (select (heap E_Value) r) (select (old (heap E_Value)) r))) :pattern ((select (heap E_Value) r))))
 //@   assigns next E_Value sent.* dyn.* last.err
 
+// C06 / C14 — the formatter never indexes outside its input: the cursor of the main scan stays within [0, len+1] (the
+// literal and comment scans may leave it on the last rune or one behind it, the main loop then steps once more),
+// the backward look for the start of a comment line stays within the text.
+//@ func IndentByParentheses C06 C14
+//@   loop 2 (i)
+//@     invariant [cursor] (and (<= 0 $i) (<= $i (+ (len $A) 1)))
+//@   loop 3 (i)
+//@     invariant [cursor] (and (<= 0 $i) (<= $i (len $A)))
+//@   loop 4 (j)
+//@     invariant [look-behind] (and (<= -1 $j) (< $j (len $A)))
+//@   loop 5 (i)
+//@     invariant [cursor] (and (<= 0 $i) (<= $i (len $A)))
+
 // C06 / C13 — line splitting used by Dump: the cut points lie inside the text (range over a string: the cursor is a byte
 // offset advancing by the width of the rune read; (iter.pos 1) is that cursor).
 //@ func splitLinesOutsideStrings C06 C13
